@@ -149,6 +149,10 @@ func garbageValue(r *rand.Rand, k reflect.Kind) string {
 	case 0:
 		return ""
 	case 1:
+		if r.Intn(3) == 0 { // a valid literal wrapped in white space: strconv rejects it
+			core := []string{"1", "0", "-5", "true", "false", "255", "t"}[r.Intn(7)]
+			return spaces[r.Intn(len(spaces))] + core + []string{"", spaces[r.Intn(len(spaces))]}[r.Intn(2)]
+		}
 		return []string{"abc", "1e3", " 1", "1 ", "0x10", "1_0", "+", "-", "--1", "+-1", "１", "1.0", "NaN"}[r.Intn(13)]
 	case 2:
 		return []string{"+1", "-0", "+0", "007", "-007", "+0000000000000000000000000000042", "00000000000000000000000000000000000000000000000000000255"}[r.Intn(7)]
